@@ -208,6 +208,29 @@ def run(ctx):
                         break
                 if len(violations) >= 5:
                     break
+            # the caller hands over the INDEX file as a stream (in-memory and raw OS-level): never closed by the library, metadata
+            # readable, data reads refused
+            for kind in ("stream", "rawstream"):
+                for api in ("read_metadata", "open", "read"):
+                    pidx = os.path.join(tmp, "s.tdms_index")
+                    open(pidx, "wb").write(base_idx)
+                    own = io.BytesIO(base_idx) if kind == "stream" else io.FileIO(pidx, "rb")
+                    before = open_fds(tmp)
+                    stats["cases"] += 1
+                    distinct.add(("index stream", kind, api))
+                    try:
+                        g = getattr(T, api)(own)
+                        if api == "open":
+                            g.close()
+                    except Exception:  # noqa: TdmsFile.read on an index-only source may refuse
+                        stats["raised"] += 1
+                    stats["steps"] += 1
+                    if own.closed:
+                        viol("TdmsFile.%s closed the caller's stream holding a .tdms_index file (%s)" % (api, kind), case="index stream", via=kind, api=api, file=base_idx.hex())
+                    elif open_fds(tmp) != before:
+                        viol("TdmsFile.%s on a caller's index stream changed the open descriptors: %s" % (api, open_fds(tmp)), case="index stream", via=kind, api=api, file=base_idx.hex())
+                    if not own.closed:
+                        own.close()
             # index-only
             pio = os.path.join(tmp, "only.tdms_index")
             open(pio, "wb").write(base_idx)
@@ -264,7 +287,7 @@ def run(ctx):
     obs = sorted(set(observations))
     return dict(violations=violations[:5], disagreements=disagreements[:20], notes=["observation: " + o for o in obs[:4]],
                 coverage=dict(evaluations=stats["steps"] + stats["writer"], distinct_nontrivial=len(distinct),
-                              rule="fault cases per generated file: valid, bad tag, metadata cut at a random offset, unknown type code, mismatching / stale longer / stale shorter / garbage index, data cut beside a complete index, index only; "
+                              rule="fault cases per generated file: valid, bad tag, metadata cut at a random offset, unknown type code, mismatching / stale longer / stale shorter / garbage index, data cut beside a complete index, index only, index handed over as a caller stream; "
                                    "x {path, stream} x {index beside the file} x {read, read_metadata, open}; for open: reads, close, reads after close (must raise), "
                                    "repeated close, with-block; TdmsWriter x {stream, stream+index stream, path, path+index} x {normal, exception inside the block}; "
                                    "descriptors measured through /proc/self/fd without gc.collect(); distinct_nontrivial = distinct (case, source, index, api) combinations",
